@@ -18,6 +18,43 @@ func init() {
 		// critical sections are verified as if sequential (trusted base, DESIGN §4.6)
 		stdModels[n] = stdModel{pure: true, f: noop, norecv: true}
 	}
+	stdModels["math.Float64bits"] = stdModel{pure: true, f: func(v *FnV, st *State, call *ast.CallExpr, recv *Value, args []Value) []Value {
+		// the bit pattern b of f satisfies to_fp(b) = f (NaN payloads are left open: sound over-approximation)
+		b := v.c.freshName("f64bits")
+		st.declare(b, "(_ BitVec 64)")
+		st.assume(sEq(sx("(_ to_fp 11 53)", b), args[0].S))
+		// a function of f for non-NaN values
+		v.c.glob("f64bitsfn", "(declare-fun f64bits (F64) (_ BitVec 64))")
+		st.assume(sImp(sNot(sx("fp.isNaN", args[0].S)), sEq(b, sx("f64bits", args[0].S))))
+		t := types.Typ[types.Uint64]
+		if v.c.bv {
+			return []Value{{T: t, S: b}}
+		}
+		return []Value{{T: t, S: sx("bv2nat", b)}}
+	}}
+	stdModels["math.IsNaN"] = stdModel{pure: true, f: func(v *FnV, st *State, call *ast.CallExpr, recv *Value, args []Value) []Value {
+		return []Value{{T: tBool, S: sx("fp.isNaN", args[0].S)}}
+	}}
+	stdModels["math.IsInf"] = stdModel{pure: true, f: func(v *FnV, st *State, call *ast.CallExpr, recv *Value, args []Value) []Value {
+		f, sign := args[0].S, args[1].S
+		inf := sx("fp.isInfinite", f)
+		return []Value{{T: tBool, S: sAnd(inf, sOr(sAnd(sGe(sign, "0"), sx("fp.isPositive", f)), sAnd(sLe(sign, "0"), sx("fp.isNegative", f))))}}
+	}}
+	stdModels["math.Inf"] = stdModel{pure: true, f: func(v *FnV, st *State, call *ast.CallExpr, recv *Value, args []Value) []Value {
+		return []Value{{T: tFloat64, S: sIte(sGe(args[0].S, "0"), "(_ +oo 11 53)", "(_ -oo 11 53)")}}
+	}}
+	stdModels["math.NaN"] = stdModel{pure: true, f: func(v *FnV, st *State, call *ast.CallExpr, recv *Value, args []Value) []Value {
+		return []Value{{T: tFloat64, S: "(_ NaN 11 53)"}}
+	}}
+	stdModels["math.Abs"] = stdModel{pure: true, f: func(v *FnV, st *State, call *ast.CallExpr, recv *Value, args []Value) []Value {
+		return []Value{{T: tFloat64, S: sx("fp.abs", args[0].S)}}
+	}}
+	for name, rm := range map[string]string{"math.Floor": "RTN", "math.Ceil": "RTP", "math.Trunc": "RTZ", "math.RoundToEven": "RNE", "math.Round": "RNA"} {
+		rm := rm
+		stdModels[name] = stdModel{pure: true, f: func(v *FnV, st *State, call *ast.CallExpr, recv *Value, args []Value) []Value {
+			return []Value{{T: tFloat64, S: sx("fp.roundToIntegral", rm, args[0].S)}}
+		}}
+	}
 	stdModels["sort.Search"] = stdModel{pure: true, f: func(v *FnV, st *State, call *ast.CallExpr, recv *Value, args []Value) []Value {
 		// the predicate closure is not executed; only the documented range of the result is used
 		r := st.freshVal("search", tInt)
